@@ -320,7 +320,7 @@ func signerTermsRule(P *Program, R *Report) {
 		if isCallTo(c, "common.ModInverse") {
 			call := c.(*ssa.Call)
 			n++
-			mp(P, R, rule, fmt.Sprintf("%s:inverse-checked#%d", kCLSign, n), "a signature is returned only if this modular inverse exists (ok tested)", fn, AcceptNonNil(0), &MustPass{NoInterproc: true, Match: func(a Atom) bool {
+			mp(P, R, rule, fmt.Sprintf("%s:inverse-checked#%d", kCLSign, n), "a signature is returned only if this modular inverse exists (ok tested)", fn, AcceptNonNil(0), &MustPass{Match: func(a Atom) bool {
 				cc, idx := callAndResult(a.V)
 				return cc == call && idx == 1 && a.Want == True
 			}})
@@ -362,7 +362,7 @@ func randomizeRule(P *Program, R *Report) {
 			R.bad(rule, kCLRandomize+":"+f, "only A, E, V are set on the randomised copy", "field "+f+" set", P.Pos(fn.Pos()))
 		}
 	}
-	mp(P, R, rule, kCLRandomize+":r-error", "a randomised signature is returned only if drawing r succeeded", fn, AcceptNilErr(1), &MustPass{NoInterproc: true, Match: func(a Atom) bool {
+	mp(P, R, rule, kCLRandomize+":r-error", "a randomised signature is returned only if drawing r succeeded", fn, AcceptNilErr(1), &MustPass{Match: func(a Atom) bool {
 		c, idx := callAndResult(a.V)
 		return c != nil && calleeName(c) == "common.RandomBigInt" && idx == 1 && a.Want == Nil
 	}})
@@ -376,53 +376,30 @@ func onlySpecifiedRejectionsRule(P *Program, R *Report) {
 	if fn == nil {
 		return
 	}
-	be := P.bigEval(fn)
 	sig := "<gabi.CLSignature>"
-	n := 0
-	classify := func(a Atom) (string, bool) {
-		a = normAtom(a)
-		// nil tests
-		if bo, ok := a.V.(*ssa.BinOp); ok && (isNilConst(bo.Y) || isNilConst(bo.X)) {
-			x := bo.X
-			if isNilConst(x) {
-				x = bo.Y
-			}
-			if isErrorType(x.Type()) {
-				if c, _ := callAndResult(x); c != nil {
-					switch calleeName(c) {
-					case "gabi.RepresentToPublicKey", "common.ModPow":
-						return "error from " + calleeName(c), true
-					}
-					return "error from " + calleeName(c), false
-				}
-				return "error value " + desc(x), false
-			}
-			return "nil test of " + desc(x), true
+	var reasons []rejReason
+	collectRejections(P, fn, 0, map[string]bool{}, &reasons)
+	seen := map[string]bool{}
+	for _, r := range reasons {
+		key := r.kind + ":" + r.text
+		if seen[key] {
+			continue
 		}
-		if g, ok := parseGuard(a, be); ok {
-			if g.Subject == sig+".E" && g.Kind == "big" {
-				return "interval test of e", true
-			}
-			return fmt.Sprintf("size/order test of %s (%s)", g.Subject, g.Kind), false
+		seen[key] = true
+		ok := false
+		switch r.kind {
+		case "nil":
+			ok = true
+		case "err":
+			ok = strings.Contains(r.text, "RepresentToPublicKey") || strings.Contains(r.text, "ModPow") || strings.Contains(r.text, "ModInverse")
+		case "guard":
+			ok = strings.HasPrefix(r.text, sig+".E|big|") || strings.HasPrefix(r.text, "<gabikeys.PublicKey>.Z|big|!=") || strings.HasSuffix(r.text, "|big|!=") && strings.Contains(r.text, "Z")
+		case "call":
+			ok = strings.Contains(r.text, "ProbablyPrime is false")
 		}
-		if c, _ := callAndResult(a.V); c != nil {
-			if bigMethod(c) == "ProbablyPrime" && desc(c.Call.Args[0]) == sig+".E" {
-				return "primality test of e", true
-			}
-			return "call " + calleeName(c), false
-		}
-		return "condition " + desc(a.V), false
+		R.decide(rule, kCLVerify+":reject:"+key, "a rejecting branch of Verify (or of a helper it relies on) is one of the specified reasons: e outside its interval, e not prime, a callee's error, a missing component, the equation", ok, "in "+r.fn+": rejects on "+key+" "+r.shown, r.pos)
 	}
-	n = enumerateRejections(P, R, rule, kCLVerify, fn, classify)
-	R.decide(rule, kCLVerify+":rejections", "the rejecting branches were enumerated (>= 4)", n >= 4, fmt.Sprintf("%d", n), P.Pos(fn.Pos()))
-	// the accepting outcome is the equation itself: the only non-constant return is the comparison with Z (C05.b)
-	nEq := 0
-	for _, r := range returnsOf(fn) {
-		if _, isB := boolConst(retValue(r, 0)); !isB {
-			nEq++
-		}
-	}
-	R.decide(rule, kCLVerify+":single-outcome", "exactly one return yields a computed verdict (the equation)", nEq == 1, fmt.Sprintf("%d", nEq), P.Pos(fn.Pos()))
+	R.decide(rule, kCLVerify+":rejections", "the rejecting branches were enumerated (>= 4)", len(seen) >= 4, fmt.Sprintf("%d distinct reasons", len(seen)), P.Pos(fn.Pos()))
 }
 
 // enumerateRejections classifies every branch that leads directly into a `return false` of fn; one obligation
